@@ -459,6 +459,10 @@ def _grid_oframe(tier, rng):
     for ax in (0, 1):
         for mv in (0, 1):
             yield {"orbit": 2, "axes": ax, "moving": mv, "dt": 500.0 * mv, "seed": 40 + ax, "form": 0, "parent": 1}
+    # a reference orbit given in TEME whose propagator (numerical, point-mass Earth) delivers its states in another frame (EME2000)
+    for ax in (0, 1, 2):
+        for dt in (0.0, 1000.0):
+            yield {"orbit": 0, "axes": ax, "moving": 3, "dt": dt, "seed": 60 + ax, "form": 0, "parent": 0}
 
 
 @contract("C17", "orbit_frame.native", funcs=["beyond.frames.frames:orbit2frame", f"{ORI}:LocalOrbitalOrientation._to_parent", "beyond.frames.center:Center._to_parent", f"{L}:to_local"],
@@ -486,7 +490,13 @@ def _(c):
     axes = [("QSW"), ("TNW"), None][c.integer("axes")]
     x0 = list(r0) + list(v0)
     form = ["cartesian", "keplerian"][c.integer("form")]
-    ref = Orbit(x0, d0, "cartesian", pframe, Kepler()) if c.integer("moving") else StateVector(x0, d0, "cartesian", pframe)
+    if c.integer("moving") == 3:
+        from beyond.propagators.keplernum import KeplerNum
+        from beyond.env.solarsystem import get_body
+        pframe = "TEME"
+        ref = Orbit(x0, d0, "cartesian", "TEME", KeplerNum(timedelta(seconds=60), get_body("Earth")))   # (propagates, and answers, in EME2000)
+    else:
+        ref = Orbit(x0, d0, "cartesian", pframe, Kepler()) if c.integer("moving") else StateVector(x0, d0, "cartesian", pframe)
     ref.form = form
     if c.integer("moving") == 2:
         # an ephemeris (held in that form) of the same orbit
@@ -496,6 +506,8 @@ def _(c):
     fr = orbit2frame(f"OF{c.integer('orbit')}{c.integer('axes')}{c.integer('moving')}{int(c.real('dt'))}{c.integer('form')}", ref, orientation=axes, exists_warning=False, **kwp)
     date = d0 + timedelta(seconds=c.real("dt"))
     at = (ref.propagate(date) if c.integer("moving") else ref).copy(form="cartesian")  # (a state at the origin has no keplerian elements: observed in cartesian form)
+    if c.integer("moving") == 3:
+        at = at.copy(frame=pframe)
     here = np.asarray(at.copy(frame=fr), dtype=float)
     c.ensure("orbit_at_the_origin", bool(np.linalg.norm(here[:3]) <= 1e-6))
     if axes is None:
